@@ -293,7 +293,16 @@ func asInjected(err error, out **simapi.InjectedError) bool {
 // with the status must reflect the failures.
 func (e *C17) syncLevel(ctx *core.Ctx) {
 	r := ctx.Rand
-	simapi.SetNow(kit.T0)
+	// half of the syncs run with the virtual clock set to the wall clock: a deadline or timer that the sync
+	// derives from "now" then relates to real time as it does in production (with the far-away virtual
+	// epoch it would never fire)
+	base := kit.T0
+	if r.Intn(2) == 0 {
+		base = time.Now().Truncate(time.Second)
+		ctx.Count("C17.sync-level-on-wall-clock")
+	}
+	simapi.SetNow(base)
+	defer simapi.SetNow(kit.T0)
 	s := simapi.NewStore()
 	ctl := kit.NewControllers(s, kit.CtlOpts{Affinity: r.Intn(2) == 0})
 	ctl.CERS.Hook = jitterHook(rand.New(rand.NewSource(r.Int63())))
@@ -303,7 +312,7 @@ func (e *C17) syncLevel(ctx *core.Ctx) {
 	eds.Spec.Strategy.RollingUpdate.SlowStartAdditiveIncrease = kit.IS(100)
 	// the usual ten seconds, or legal extremes: whatever the frequency, a sync reports what failed
 	eds.Spec.Strategy.ReconcileFrequency = &metav1.Duration{Duration: []time.Duration{10 * time.Second, 0, time.Millisecond, 48 * time.Hour}[r.Intn(4)]}
-	rsB := kit.NewRS(s, eds, "foo-b", tplTol("B", r.Intn(3)), kit.T0.Add(-time.Hour))
+	rsB := kit.NewRS(s, eds, "foo-b", tplTol("B", r.Intn(3)), base.Add(-time.Hour))
 	eds.Status.ActiveReplicaSet = "foo-b"
 	n := 4 + r.Intn(12)
 	// "mixed": outdated pods on half of the nodes, none on the others - the same sync deletes and creates
@@ -332,7 +341,7 @@ func (e *C17) syncLevel(ctx *core.Ctx) {
 				OwnerReferences: []metav1.OwnerReference{{APIVersion: "datadoghq.com/v1alpha1", Kind: "ExtendedDaemonSetReplicaSet", Name: "foo-b", UID: stB.GetUID(), Controller: &tr}}},
 				Spec: corev1.PodSpec{NodeName: name, Containers: []corev1.Container{{Name: "main", Image: "img:" + marker}}}}
 			p.Status.Phase = corev1.PodRunning
-			p.Status.Conditions = []corev1.PodCondition{kit.ReadyCond(true, kit.T0.Add(-time.Minute))}
+			p.Status.Conditions = []corev1.PodCondition{kit.ReadyCond(true, base.Add(-time.Minute))}
 			return p
 		}
 		switch mode {
